@@ -347,7 +347,7 @@ _SAFE_METHODS = {
                 'insert', 'reverse', 'clear', 'copy', 'strip', 'rstrip', 'lstrip', 'zfill', 'split', 'isdigit', '__getitem__', '__contains__'},
     tuple: {'index', 'count', '__getitem__', '__contains__'},
     int: {'to_bytes', 'bit_length'},
-    __import__('inspect').Parameter: {'name', 'kind', 'default'},
+    __import__('inspect').Parameter: {'name', 'kind', 'default', 'annotation', 'empty', 'POSITIONAL_ONLY', 'POSITIONAL_OR_KEYWORD', 'VAR_POSITIONAL', 'KEYWORD_ONLY', 'VAR_KEYWORD'},
     __import__('decimal').Decimal: {'quantize', 'normalize', 'to_integral_value', 'is_finite', 'as_tuple', 'scaleb', 'copy_abs', 'copy_sign', 'copy_negate', 'is_nan', 'is_infinite', 'is_zero', 'is_signed', 'adjusted', 'compare', 'to_integral', 'to_integral_exact', 'as_integer_ratio', 'remainder_near', 'max', 'min', 'sqrt', 'fma', 'shift', 'rotate', 'same_quantum', 'is_normal', 'is_subnormal', 'number_class', 'conjugate'},
     list: {'index', 'count', 'append', 'extend', 'pop', 'insert', 'remove', 'clear', 'sort', 'reverse', 'copy', '__getitem__', '__contains__'},
     frozenset: {'union', 'intersection'},
